@@ -222,6 +222,7 @@ func runStatic(data json.RawMessage) vh.Verdict {
 	cm := &comparer{c: wc, class: strings.SplitN(c.Impl, "-", 2)[0]}
 	exp := expState{Eff: c.Eff, Obs: c.Obs}
 	var w b6.World
+	var fresh func() (b6.World, error)
 	var err error
 	compactFamily := false
 	built := obs.WithDeadline(240*time.Second, func() {
@@ -260,9 +261,16 @@ func runStatic(data json.RawMessage) vh.Verdict {
 			exp = expState{Eff: c.Layered, Obs: c.LObs}
 		case "concurrent-basic":
 			w, err = buildBasicFromSource(c.Src, cores)
+			fresh = func() (b6.World, error) { return buildBasicFromSource(c.Src, cores) }
 		case "concurrent-compact":
 			compactFamily = true
-			w, err = buildCompactWorld(c.Src, cores)
+			var data []byte
+			data, err = buildCompact(features(c.Src, true, nil), cores, nil)
+			if err == nil {
+				w, err = compact.NewWorldFromData(data)
+				// a world object over the same index whose lazily filled caches are still empty
+				fresh = func() (b6.World, error) { return compact.NewWorldFromData(data) }
+			}
 		case "diff", "pardiff-compact", "pardiff-basic":
 			// differential impls build their two worlds in runDiff
 			return
@@ -310,23 +318,40 @@ func runStatic(data json.RawMessage) vh.Verdict {
 		const G, R = 8, 3
 		results := make([][]obs.Observation, G)
 		var wg sync.WaitGroup
-		finished := obs.WithDeadline(60*time.Second, func() {
-			for g := 0; g < G; g++ {
-				wg.Add(1)
-				go func(g int) {
-					defer wg.Done()
-					ids := append([]string{}, c.IDs...)
-					// every goroutine probes in a different order so that caches are contended
-					for i := range ids {
-						j := (i*7 + g*3) % len(ids)
-						ids[i], ids[j] = ids[j], ids[i]
+		finished := obs.WithDeadline(90*time.Second, func() {
+			// round 0 and 1 start on a world object nobody has read yet (cold caches: concurrent FIRST reads of a
+			// feature's lazily built geometry), round 2 on the world that was observed alone (warm caches)
+			for r := 0; r < R; r++ {
+				cw := w
+				if r < R-1 && fresh != nil {
+					if fw, ferr := fresh(); ferr == nil {
+						cw = fw
 					}
-					for r := 0; r < R; r++ {
-						results[g] = append(results[g], obs.Observe(w, ids, copts))
-					}
-				}(g)
+				}
+				start := make(chan struct{})
+				for g := 0; g < G; g++ {
+					wg.Add(1)
+					go func(g int) {
+						defer wg.Done()
+						ids := append([]string{}, c.IDs...)
+						// every goroutine probes in a different order so that caches are contended
+						if r != 0 {
+							for i := range ids {
+								j := (i*7 + g*3) % len(ids)
+								ids[i], ids[j] = ids[j], ids[i]
+							}
+						}
+						<-start
+						if r == 0 {
+							// all at once at the geometry of the same features first
+							obs.Observe(cw, ids, obs.Options{Geometry: true})
+						}
+						results[g] = append(results[g], obs.Observe(cw, ids, copts))
+					}(g)
+				}
+				close(start)
+				wg.Wait()
 			}
-			wg.Wait()
 		})
 		if !finished {
 			cm.add(-1, "concurrent", "hang", "concurrent observation did not finish within 60 s")
